@@ -599,7 +599,11 @@ func (x *exec) blobTokens(fr *frame, b *blob) []xtok {
 			x.abandon("xmlmodel: blob with an unrecognised prefix")
 		}
 	}
-	m.marshal(b.snap, b.typ, "", nil)
+	if b.eager {
+		m.out = append(m.out, b.valTokens...)
+	} else {
+		m.marshal(b.snap, b.typ, "", nil)
+	}
 	b.tokens = m.out
 	if m.raw {
 		b.raw = true
